@@ -22,7 +22,8 @@ RULE = ("repair_dna(s, G, v, k, check, has_indel, heap_size) with s in {walks; w
         "errors in the first / last window}, check in {none, VT(s), VT(original walk), arbitrary}, has_indel on/off, heap_size in "
         "{0, 1, 10, 1e3, 1e4}, G arc-subset or generated, k = 1..4. Verdict: s a walk => ([s], detected 0), or ([], detected 0) "
         "when a supplied check != VT(s); always: candidates strictly increasing and every candidate reproduces the supplied "
-        "check. Non-trivial: a check is supplied or the strand is not a walk; distinct = hash of the case.")
+        "check. Non-trivial: a check is supplied or the strand is not a walk; distinct = hash of the case."
+        ' Also: the identical call repeated after the returned candidate list was scrambled in place, checks passed as numpy.str_, and edit sequences on one accessor object overwritten in place.')
 HEAPS = [0, 1, 10, 1e3, 1e3, 1e4]
 
 
